@@ -2,7 +2,7 @@
 import migrun
 
 ASSUME = [
-    "model = coq/mig/Model/Locking.v + Sqlite.v: SQLite rollback-journal file locks (UNLOCKED/SHARED/RESERVED/PENDING/EXCLUSIVE), deferred BEGIN, busy_timeout 0 => immediate Busy; interleaving at connection-call granularity, any number of instances; theorems carry [id_conflict = false] (recorded ids agree with the compiled ones; otherwise every instance returns IdMismatch)",
+    "model = coq/mig/Model/Locking.v + Sqlite.v: SQLite rollback-journal file locks (UNLOCKED/SHARED/RESERVED/PENDING/EXCLUSIVE), deferred BEGIN, busy_timeout 0 => immediate Busy; interleaving at connection-call granularity, any number of instances; no hypothesis on the recorded ids (with a conflicting id nothing is committed and nobody returns Ok, C11_conflict_blocks_everyone); C11_steps_single_is_run ties the one-instance system to the sequential `run` of C09/C10",
     "tie = K-mig: 2 and 3 instances of the REAL generated code, each on its own sqlx-sqlite pool of one connection to one database file (sqlx defaults: rollback journal, foreign_keys=ON; busy_timeout set to 0), stepped call by call by the harness scheduler (no timers); after an instance returns the harness synchronises with the rollback sea-orm queues on drop before anybody else moves",
     "the model lets every user statement take RESERVED (true of any statement that changes the database file); a statement that turns out to be a no-op on the engine (e.g. CREATE TABLE IF NOT EXISTS on an existing table) takes it only later — this shifts where a loser gets Busy, not what can be committed; the corpus uses statements that always write",
     "outside the model (named): WAL mode, non-zero busy timeouts / busy handlers, cache spill taking EXCLUSIVE early, several connections per instance pool, PostgreSQL / MySQL locking",
